@@ -62,6 +62,18 @@ var openURLs = []string{
 	"ws://example.test/@evil.example/at",
 	"ws://example.test\\evil.example/backslash",
 	"/redirect-me/deeper?x=1",
+	// relative references whose first segment could continue the configured authority
+	"@evil.example/at-first",
+	"5/digits-first?x=1",
+	"0",
+	"80/x",
+	".evil.example/dot-first",
+	"-evil.example/dash-first",
+	"%40evil.example/escaped-at",
+	":9999/colon-first",
+	"evil.example:9/rel-with-colon",
+	"..evil.example",
+	"[::1]:80/bracket-first",
 }
 
 // worldC13: whatever URL a client puts into a shim open request, the only
@@ -110,13 +122,17 @@ func worldC13(w *World) {
 		})
 	}
 	// requests outside the shim prefix go to the normal path untouched
-	otherPaths := []string{"/shimmy/open", "/other/shim/open", "/", "/shi", "/SHIM/open", "/shim", "/data"}
+	otherPaths := []string{"/shimmy/open", "/other/shim/open", "/", "/shi", "/SHIM/open", "/shim", "/data", "/shim-assets/app.js", "/shim.js", "/shim2/data", "/shimopen"}
 	otherGot := make([]string, nOther)
+	otherPath := make([]string, nOther)
+	otherEcho := make([][]byte, nOther)
+	otherSeen := make([]string, nOther)
 	otherBody := make([][]byte, nOther)
 	for i := 0; i < nOther; i++ {
 		i := i
 		p := otherPaths[t.Choice(len(otherPaths), "otherpath")]
 		otherBody[i] = []byte(fmt.Sprintf("ws://evil.example/nonshim-%d", i))
+		otherPath[i] = p
 		wg.Add(1)
 		w.K.Spawn(fmt.Sprintf("other%d", i), func() {
 			defer wg.Done()
@@ -129,8 +145,9 @@ func worldC13(w *World) {
 				otherGot[i] = "ERR " + err.Error()
 				return
 			}
-			io.Copy(io.Discard, resp.Body)
+			otherEcho[i], _ = io.ReadAll(resp.Body)
 			resp.Body.Close()
+			otherSeen[i] = resp.Header.Get("X-Seen-Path")
 			otherGot[i] = fmt.Sprintf("%d %s", resp.StatusCode, p)
 		})
 	}
@@ -197,6 +214,17 @@ func worldC13(w *World) {
 				w.Violation("passthrough", "a request outside the shim prefix failed | %s", otherGot[i])
 			}
 			w.Probe("non_shim_request")
+			// "/shim" itself is the prefix without its slash (the mux redirects it);
+			// everything else here is outside "/shim/" and must be the backend's own answer
+			if p := otherPath[i]; p != "/shim" && !strings.HasPrefix(otherGot[i], "ERR") {
+				up, _ := url.PathUnescape(p)
+				if !strings.HasPrefix(otherGot[i], "200 ") || !bytes.Equal(otherEcho[i], otherBody[i]) || otherSeen[i] != up {
+					w.Violation("passthrough", "a request outside the shim prefix was not handled by the normal HTTP path | %s: answered %q, backend saw path %q, body echoed %v", p, otherGot[i], otherSeen[i], bytes.Equal(otherEcho[i], otherBody[i]))
+				}
+				if strings.HasPrefix(p, "/shim") {
+					w.Probe("sibling_of_shim_prefix")
+				}
+			}
 		}
 	})
 }
